@@ -82,6 +82,9 @@ func genFieldID(t *rapid.T, used map[int16]bool, cfg GenCfg) int16 {
 	}
 }
 
+// bytes an api.key may hold besides identifier characters (no quote, no backslash: the IDL literal stays plain)
+var aliasPunct = []byte(" !#$%&'()*+,-./:;<=>?@[]^`{|}~")
+
 var fieldNameParts = []string{"a", "b", "c", "id", "foo", "Bar", "val", "x1", "data", "Item", "key", "msg", "n", "req_z", "UP"}
 
 func genName(t *rapid.T, used map[string]bool) string {
@@ -183,7 +186,27 @@ func GenUniverse(t *rapid.T, cfg GenCfg) *Universe {
 				}
 			}
 			if cfg.Aliases && rapid.IntRange(0, 2).Draw(t, "hasAlias") == 0 {
-				fd.Alias = "k_" + fieldNameParts[rapid.IntRange(0, len(fieldNameParts)-1).Draw(t, "aliasPart")] + fmt.Sprint(j)
+				a := "k_" + fieldNameParts[rapid.IntRange(0, len(fieldNameParts)-1).Draw(t, "aliasPart")] + fmt.Sprint(j)
+				pc := func() string { return string(aliasPunct[rapid.IntRange(0, len(aliasPunct)-1).Draw(t, "aliasPunct")]) }
+				switch rapid.IntRange(0, 5).Draw(t, "aliasClass") {
+				case 0:
+					// JSON-style keys with punctuation (bytes below '.', where the index of the key trie wraps, and above 'z'):
+					// keys of one struct that differ from each other in that one byte only
+					a = "k" + pc() + "x"
+				case 1:
+					a = fieldNameParts[rapid.IntRange(0, len(fieldNameParts)-1).Draw(t, "aliasPart2")] + pc() + "id"
+				case 2:
+					a = pc()
+				}
+				dup := false
+				for _, o := range sd.Fields {
+					if o.Alias == a {
+						dup = true
+					}
+				}
+				if !dup {
+					fd.Alias = a
+				}
 			}
 			sd.Fields = append(sd.Fields, fd)
 		}
@@ -275,7 +298,7 @@ func GenDoubleBits(t *rapid.T, finiteOnly bool) uint64 {
 	}
 }
 
-var strAlphabet = []string{"a", "b", "Z", "0", " ", "\"", "\\", "/", "\n", "\t", "\x00", "\x1f", "\x7f", "é", "ß", "中", "\u2028", "\u2029", "😀", "𝄞", "<", ">", "&", "'", "\r", "\b", "\f", "\x01", "\ufffd", "\u00a0"}
+var strAlphabet = []string{"a", "b", "Z", "0", " ", "\"", "\\", "/", "\n", "\t", "\x00", "\x1f", "\x7f", "é", "ß", "中", "\u2028", "\u2029", "😀", "𝄞", "<", ">", "&", "'", "\r", "\b", "\f", "\x01", "\ufffd", "\u00a0", "\u0080", "\ufeff", "\U0010ffff", "\ud7ff", "\ue000"}
 var badUTF8 = []string{"\xff", "\xc0", "\xe4\xb8", "\xf0\x9f\x98", "\x80", "\xed\xa0\x80", "\xc3"}
 var strLenBounds = []int{15, 16, 17, 31, 32, 33, 63, 64, 65, 127, 128, 129, 255, 256, 257}
 
